@@ -23,3 +23,12 @@ add("C11", "exhaustive join of a writer table (Test/issue literals, codes, param
 add("C18", "enumeration of numeric Convert instructions in all code reachable from the numeric coercers; lossiness from types.Sizes; dominating range-guard proof in exact rational arithmetic (NaN-aware) or integer round-trip; strconv error discipline; thorough repeats under GOARCH=386",
     "Decides that every lossy numeric conversion on a coercion path is range-guarded so that an out-of-range input becomes a coerce error, never another number. strconv's own parsing and custom coercers are trusted; level 'other'.",
     "DESIGN.md section 4, C18")
+add("C03", "def-use / value-flow rules on option constructors and schema constructors, guard-dominance on the coercion store, induction-variable agreement in the slice loops, reflect write-site rule for the struct pipeline",
+    "Decides only the structural part of C03: options take effect and are applied, the default coercer is the overridable global of the right type, the pipeline stores exactly the coercer's result, slice index/path/destination agree, the destination struct is written field-by-field, pointers allocate only when nil. The value semantics of the coercers (\"1\"->1, \"on\"->true, layouts) are NOT decided by static analysis; level 'other'.",
+    "DESIGN.md section 4, C03")
+add("C12", "address-root classification of callback arguments at every callback call site; shape rules (entry-block defer, HasErrored gate, ascending loop, one wrapping issue) on the post-transform closures; never-reaches rule for Preprocess",
+    "Decides that every user callback is invoked with the node's own destination value and context in both modes, the primitive/complex TFunc convention, the structural PostTransform protocol and the Preprocess skip. Run-time call counts and cross-node order are not decided; level 'other'.",
+    "DESIGN.md section 4, C12")
+add("C16", "flow-sensitive field provenance on locally created schema objects (fresh / capacity-clipped / shared-with-operand), map-write target resolution, CFG-order rules for Merge, key-provenance rules for Pick/Omit/Extend",
+    "Decides that derived struct schemas never share an appendable slice backing array or a field map with an operand, never write an operand, combine operands in documented order and select exactly the named keys. Behavioural equivalence with a hand-written schema on all inputs is not decided; level 'other'.",
+    "DESIGN.md section 4, C16")
